@@ -58,3 +58,149 @@ def replay(pid, path):
     print("replay: re-run `tools/check %s --tier %s` with VERIF_SEED=%s; the case above is regenerated deterministically" % (
         pid, v.get("tier", "quick"), v.get("seed", 0)))
     return 0
+
+
+# ----------------------------------------------------------------------------- XtObs traces
+
+KNOWN_CLASSES = {"yaml_void", "json_adjacent_scalars", "json_dupkey_toml"}
+
+
+def load_index(idx_path):
+    cases = []
+    with open(idx_path) as f:
+        for line in f:
+            cases.append(json.loads(line))
+    return cases
+
+
+def case_of_line(cases, line):
+    lo, hi = 0, len(cases) - 1
+    ans = 0
+    while lo <= hi:
+        mid = (lo + hi) // 2
+        if cases[mid]["line"] <= line:
+            ans = mid; lo = mid + 1
+        else:
+            hi = mid - 1
+    return ans
+
+
+def validate_obs(run, trace, rules, what, max_rejects=6, spec="Trace_XtObs", devs=None):
+    """Validates a recorded XtObs trace with TLC.  A rejected case is reported as a violation,
+    cut out of the trace, and validation continues with the rest."""
+    cases = load_index(trace + ".idx")
+    listed = sorted(k["key"] for k in common.known_findings() if k["property"] == run.pid and k["key"] in KNOWN_CLASSES)
+    env = {"XT_RULES": ",".join(rules), "XT_DEVS": ",".join(devs if devs is not None else listed) or "none"}
+    cur = trace
+    rejects = 0
+    total_cases = len(cases)
+    while True:
+        r = common.validate_trace(spec + ".tla", spec + ".cfg", cur, env=env, tag="%s-%s" % (spec, run.pid))
+        devs_seen = set()
+        for l in r["out"].splitlines():
+            if l.startswith('<<"DEVIATION"'):
+                devs_seen.add(l.split('"')[3])
+        for d in devs_seen:
+            hit = next((k for k in common.known_findings() if k["property"] == run.pid and k["key"] == d), None)
+            if hit and hit not in run.known_hits:
+                run.known_hits.append(hit)
+        if r["accepted"]:
+            break
+        rejects += 1
+        rj = common.tlc_printed(r["out"], "REJECTJSON")
+        info = json.loads(rj[0]) if rj else {"line": 1, "rec": {}}
+        # map the line of the current (possibly cut) trace back to a case
+        cur_cases = load_index(cur + ".idx")
+        ci = case_of_line(cur_cases, info["line"])
+        case = cur_cases[ci]
+        run.violation("recorded execution is not a behaviour of XtObs under rules %s: record %d %s" % (
+            ",".join(rules), info["line"] - case["line"] + 1, json.dumps(info["rec"])[:400]),
+            {"kind": "xtobs-trace", "rules": rules, "case": case["case"], "rejected_record": info["rec"],
+             "record_in_case": info["line"] - case["line"] + 1})
+        if rejects >= max_rejects:
+            break
+        # cut the case out and go on
+        start = case["line"]
+        end = cur_cases[ci + 1]["line"] if ci + 1 < len(cur_cases) else None
+        nxt = trace + ".cut%d" % rejects
+        removed = (end - start) if end else None
+        with open(cur) as fin, open(nxt, "w") as fout:
+            for n, line in enumerate(fin, 1):
+                if n < start or (end is not None and n >= end):
+                    fout.write(line)
+        with open(nxt + ".idx", "w") as f:
+            for j, c in enumerate(cur_cases):
+                if j == ci:
+                    continue
+                c2 = dict(c)
+                if j > ci:
+                    c2["line"] = c["line"] - removed
+                f.write(json.dumps(c2) + "\n")
+        cur = nxt
+    run.add_traces(total_cases, r, what)
+    return rejects
+
+
+def record_obs(run, scenario, count, tag):
+    path = os.path.join(WORK, "trace_%s_%s_%s.ndjson" % (run.pid, tag, run.tier))
+    summ = run_xtv(["record-obs", scenario, path, count], timeout=3000)
+    return path, summ
+
+
+def obs_stage(run, scenario, count, rules, what):
+    path, summ = record_obs(run, scenario, count, scenario.replace(",", "+"))
+    run.add_harness(summ, "recorded: " + what)
+    validate_obs(run, path, rules, what)
+    for f in os.listdir(WORK):
+        if f.startswith(os.path.basename(path)):
+            try:
+                os.remove(os.path.join(WORK, f))
+            except OSError:
+                pass
+
+
+OBS_ASSUME = [
+    "document boundaries and frames are computed by the harness: a frame is xt's own translation of the document taken alone (the property's oracle); value fidelity of a single translation is C01's business",
+    "harness reader/writer honour the Read/Write contracts except where a fault or over-report is injected on purpose",
+]
+
+
+def c02(run):
+    run.rule = ("each case = one translate call on a fresh Translator for (input bytes, source selection, target, supply mode/read schedule); "
+                "cases sharing bytes+formats share a key and TLC requires equal verdicts, byte-identical output on success and prefix-comparable "
+                "output on failure (XtObs!End/Agrees); non-trivial = multi-document or mutated input; distinct by bytes, formats and schedule")
+    run.assumptions += OBS_ASSUME
+    obs_stage(run, "witnesses,streams", _q(run, 25, 400), ["C02"], "generated single/multi-document streams of every format x 4 targets x explicit/detected x slice + 7 read schedules")
+    obs_stage(run, "unknown", _q(run, 300, 6000), ["C02"], "mutated/truncated/spliced inputs x 3 source selections x slice + 4 read schedules")
+
+
+def c03(run):
+    run.rule = ("each case = a history of 1-4 translate calls on one Translator (mixed formats, slice/reader, explicit/detected) or one multi-document "
+                "stream; TLC requires every accepted byte to extend the concatenation of the solo translations, whole frames in order, and End(ok) only "
+                "with every document written (XtObs!ObsWrite/End); non-trivial = >= 2 documents or calls")
+    run.assumptions += OBS_ASSUME
+    obs_stage(run, "witnesses,streams", _q(run, 25, 400), ["C03"], "multi-document streams (0..24 documents, all legal separators, documents padded to 8/16 KiB boundaries)")
+    obs_stage(run, "histories", _q(run, 400, 8000), ["C03"], "histories of 1-4 calls in mixed formats and supply modes on one Translator")
+
+
+def c05(run):
+    run.rule = ("each case = a stream of 10-120 small documents read through a packetising reader (one document per read, document starts, every third "
+                "document, half documents, single bytes, random); at every read request TLC requires delivered - written <= 2 (XtObs!ObsRead); "
+                "distinct by stream, target, schedule and source selection")
+    run.assumptions += OBS_ASSUME
+    obs_stage(run, "lag", _q(run, 8, 150), ["C05"], "bounded lag at every read request, 3 streaming sources x 3 targets x 6 packetisations x explicit/detected")
+
+
+def c08(run):
+    run.rule = ("each case = a history of calls on a TOML-target Translator; TLC requires at most one frame ever, nothing written for a refused or second "
+                "document, End(ok) only for the first clean document (XtObs rules C08)")
+    run.assumptions += OBS_ASSUME
+    obs_stage(run, "toml", _q(run, 600, 10000), ["C08"], "TOML target: every root kind, refusals at every nesting position, 1-3 calls, four sources, slice and reader")
+
+
+def c12(run):
+    run.rule = ("each case = one translation with the reader failing from byte k (every k of the input), or the writer failing from byte k (every k of "
+                "the fault-free output), or a short-write pattern; TLC requires End(err) once a fault was hit, the reader's text in the message, accepted "
+                "bytes a prefix of the fault-free output, whole fault-free frames in order (XtObs rules C12)")
+    run.assumptions += OBS_ASSUME + ["faults are persistent and of a kind other than Interrupted (which std retries by contract)"]
+    obs_stage(run, "faults", _q(run, 8, 120), ["C12"], "reader fault at every input offset, writer fault at every output offset, short writes; 4 sources x 4 targets")
